@@ -42,6 +42,7 @@ type record struct {
 	raw            []byte
 	step           int
 	sentSeq        int
+	skipped        bool // holds only replies: never queued
 	exp            refrpc.Record
 	members        []*member
 	wire           [][]byte
@@ -112,6 +113,16 @@ func ServerCheck(sc sim.Scenario, h *sim.History, opt ServerOptions) []Problem {
 			}
 			r.exp = refrpc.Classify(cfg, r.raw)
 			r.queued = r.exp.Top == "members"
+			// A record that holds nothing but well-formed replies is consumed or
+			// dropped by the reader of a push-enabled server: it never enters the queue.
+			if r.queued && cfg.AllowPush && len(r.exp.Members) > 0 {
+				r.skipped = true
+				for _, m := range r.exp.Members {
+					if m.Class != refrpc.ReplyShaped || m.Reply != refrpc.NoReply {
+						r.skipped = false
+					}
+				}
+			}
 			for i, m := range r.exp.Members {
 				mm := &member{rec: r.idx, idx: i, exp: m, k: nonceOf(m.Params), enterSeq: -1, exitSeq: -1, ctxDoneSeq: -1}
 				mm.builtin = cfg.Builtin && strings.HasPrefix(m.Method, "rpc.")
@@ -160,7 +171,7 @@ func ServerCheck(sc sim.Scenario, h *sim.History, opt ServerOptions) []Problem {
 	startedUpTo := func() int { // returns the number of leading records that have started
 		n := 0
 		for _, r := range cur() {
-			if !r.queued {
+			if !r.queued || r.skipped {
 				n++
 				continue
 			}
@@ -176,6 +187,18 @@ func ServerCheck(sc sim.Scenario, h *sim.History, opt ServerOptions) []Problem {
 			}
 		}
 		return n
+	}
+
+	// headOf: records with an index up to this one have been taken out of the
+	// queue (assigned): all started ones plus the first queued record behind
+	// them, which waits at the barrier (records that were never queued do not count).
+	headOf := func(started int) int {
+		for _, r := range cur() {
+			if r.idx >= started && r.queued && !r.skipped {
+				return r.idx
+			}
+		}
+		return started
 	}
 
 	// ---- attribution of outbound records -----------------------------------
@@ -542,7 +565,7 @@ func ServerCheck(sc sim.Scenario, h *sim.History, opt ServerOptions) []Problem {
 				continue
 			}
 			// assigned by now? records up to index `started` (the one blocked at the barrier) are assigned
-			if r.idx > started {
+			if r.idx > headOf(started) {
 				continue
 			}
 			for _, m := range r.members {
@@ -697,7 +720,7 @@ func ServerCheck(sc sim.Scenario, h *sim.History, opt ServerOptions) []Problem {
 				before := started
 				// Duplicate-id resolution for records assigned by now.
 				for _, r := range cur() {
-					if !r.queued || r.idx > started || r.assignedBy >= 0 {
+					if !r.queued || r.idx > headOf(started) || r.assignedBy >= 0 {
 						continue
 					}
 					r.assignedBy = e.Seq
@@ -791,6 +814,9 @@ func ServerCheck(sc sim.Scenario, h *sim.History, opt ServerOptions) []Problem {
 						continue
 					}
 					if m.runs && m.enterSeq < 0 && m.dup == "" && m.cancelled == "" && !m.builtin && !m.expired && !m.expiredMaybe {
+						if os.Getenv("VERIF_DEBUG") != "" {
+							fmt.Printf("waiting at %d: rec %d member k=%d id=%s\n", e.Seq, r.idx, m.k, m.exp.IDText)
+						}
 						waiting++
 					}
 				}
@@ -870,7 +896,7 @@ func ServerCheck(sc sim.Scenario, h *sim.History, opt ServerOptions) []Problem {
 			var wantReserved []string
 			unsure := false
 			for _, r := range cur() {
-				if !r.queued || r.idx > started || hasReply(r) {
+				if !r.queued || r.idx > headOf(started) || hasReply(r) {
 					continue
 				}
 				for _, m := range r.members {
